@@ -152,18 +152,22 @@ class Interp6(Interp5):
 
     # ---- hashlib.sha1(s.encode("utf-8")).hexdigest() (C18) ----------------------------------------------------------
     def str_method_hook(self, s, meth, pos, kw, node):
-        if meth == "encode" and len(pos) <= 1 and not kw:
-            enc = z3.simplify(pos[0].t).as_string() if pos and isinstance(pos[0], SStr) and z3.is_string_value(z3.simplify(pos[0].t)) else "utf-8"
+        if meth == "encode" and len(pos) <= 2 and set(kw) <= {"errors", "encoding"}:
+            e0 = pos[0] if pos else kw.get("encoding")
+            enc = z3.simplify(e0.t).as_string() if isinstance(e0, SStr) and z3.is_string_value(z3.simplify(e0.t)) else "utf-8"
+            er = pos[1] if len(pos) > 1 else kw.get("errors")
+            policy = z3.simplify(er.t).as_string() if isinstance(er, SStr) and z3.is_string_value(z3.simplify(er.t)) else ("strict" if er is None else "?")
             if enc.lower().replace("_", "-") in ("utf-8", "utf8"):
-                r = SOpaque("bytes:utf-8")
+                # strict encoding is injective; any other error policy (replace / ignore / ...) maps distinct strings to the same bytes
+                r = SOpaque("bytes:utf-8" if policy == "strict" else "bytes:utf-8:lossy")
                 r.text = s
                 return r
             raise Unsupported(f"str.encode({enc!r})")
         return super().str_method_hook(s, meth, pos, kw, node)
 
     def builtin_hook6(self, name, pos, kw, node):
-        if name == "hashlib.sha1" and len(pos) == 1 and isinstance(pos[0], SOpaque) and pos[0].what == "bytes:utf-8" and not kw:
-            r = SOpaque("sha1")
+        if name == "hashlib.sha1" and len(pos) == 1 and isinstance(pos[0], SOpaque) and pos[0].what.startswith("bytes:utf-8") and not kw:
+            r = SOpaque("sha1" if pos[0].what == "bytes:utf-8" else "sha1:lossy")
             r.text = pos[0].text
             return r
         if name in ("hash", "id") or name.startswith(("random.", "time.", "uuid.")):
@@ -174,6 +178,10 @@ class Interp6(Interp5):
     def method_hook7(self, obj, meth, pos, kw, node):
         if isinstance(obj, SOpaque) and obj.what == "sha1" and meth == "hexdigest" and not pos and not kw:
             return SStr(self.w.funcs["sha1hex"](obj.text.t))
+        if isinstance(obj, SOpaque) and obj.what == "sha1:lossy" and meth == "hexdigest" and not pos and not kw:
+            # the digest of a lossy encoding: some other function of the string (not the injective-on-content digest the contract names)
+            f = z3.Function("sha1hex_of_lossy_encoding", z3.StringSort(), z3.StringSort())
+            return SStr(f(obj.text.t))
         h = getattr(self, "method_hook8", None)
         return h(obj, meth, pos, kw, node) if h else None
 
